@@ -418,13 +418,13 @@ def presentations_compatible(base, other, rounds=5):
         bs.add(idle(base.world)); os_.add(idle(other.world))
     return False
 
-EXTRA_MODULES = {"C14": ["TB.Props.C14run", "TB.Props.Outcome"], "C03": ["TB.Props.C03frame"], "C17": ["TB.Props.C17run", "TB.Props.C17scan", "TB.Props.TopLevel"],
+EXTRA_MODULES = {"C14": ["TB.Props.C14run", "TB.Props.Outcome"], "C03": ["TB.Props.C03frame"], "C17": ["TB.Props.C17run", "TB.Props.C17scan", "TB.Props.TopLevel", "TB.Props.OrderIndep"],
                  "C01": ["TB.Props.C01bytes", "TB.Props.TopLevel"],
                  "C11": ["TB.Props.C01bytes", "TB.Props.C04h", "TB.Props.C04hist", "TB.Props.C02chain", "TB.Props.TopLevel"],
                  "C02": ["TB.Props.C02run", "TB.Props.C02chain", "TB.Props.TopLevel"], "C16": ["TB.Props.C16run", "TB.Props.C16total", "TB.Props.Outcome"],
                  "C04": ["TB.Props.C04a", "TB.Props.C04c", "TB.Props.C04h", "TB.Props.C04hist", "TB.Props.C06layout", "TB.Props.TopLevel"],
                  "C15": ["TB.Props.C04a", "TB.Props.C04c", "TB.Props.C02chain", "TB.Props.Outcome"], "C12": ["TB.Props.C06layout"],
-                 "C05": ["TB.Props.C05writes"], "C06": ["TB.Props.C06layout"]}
+                 "C05": ["TB.Props.C05writes", "TB.Props.OrderIndep"], "C06": ["TB.Props.C06layout"]}
 
 PROPS = {
     "C01": dict(module="TB.Props.C01", theorems=["C01_write_sound", "C01_gate", "C01_writer_cursor", "C01_run"], clauses=["c01-", "c03-cwd"],
